@@ -345,6 +345,14 @@ m("c11-shift-boundary", "C11", "x/liquidvesting/types/schedule.go",
   "\t\tif elapsedTime+period.Length > currentTime {\n\t\t\treturn currentTime - elapsedTime", "\t\tif elapsedTime+period.Length >= currentTime {\n\t\t\treturn currentTime - elapsedTime",
   "CurrentPeriodShift#period-end-vs-currentTime")
 
+m("c12-genesis-pool-unchecked", "C12", "x/ucdao/keeper/genesis.go",
+  "\tif len(pool) != len(totalBalance) || !pool.IsAllGTE(totalBalance) || !totalBalance.IsAllGTE(pool) {\n\t\tpanic(",
+  "\tif len(pool) != len(totalBalance) || !pool.IsAllGTE(totalBalance) || !totalBalance.IsAllGTE(pool) {\n\t\tctx.Logger().Error(\"ucdao pool mismatch\")\n\t\treturn\n\t\tpanic(", "pool-equals-computed-total",
+  "a genesis whose module account does not hold the holders' total is only logged")
+m("c12-genesis-no-module-account", "C12", "x/ucdao/keeper/genesis.go",
+  "\tmacc := k.ak.GetModuleAccount(ctx, types.ModuleName)\n\tif macc == nil {\n\t\tpanic(\"the ucdao module account has not been set\")\n\t}\n\n\tpool := k.bk.GetAllBalances(ctx, macc.GetAddress())",
+  "\tpool := k.bk.GetAllBalances(ctx, k.ak.GetModuleAddress(types.ModuleName))", "module-account-ensured",
+  "the pool is read at the module address without creating the module account")
 # ---------------- C13 ----------------
 m("c13-disabled-falls-through", "C13", "x/coinomics/keeper/abci.go",
   "\t\t\tk.SetPrevBlockTS(ctx, sdk.ZeroInt())\n\t\t}\n\t\treturn\n\t}", "\t\t\tk.SetPrevBlockTS(ctx, sdk.ZeroInt())\n\t\t}\n\t}",
